@@ -21,7 +21,7 @@ for i in ids:
     rules = sorted(set(re.findall(r'violated: (R[\d.]+[a-z]?)\|', out.stdout)))
     first = [l.strip() for l in out.stdout.splitlines() if l.strip().startswith('violated: ')][:1]
     meta = {'property': prop, 'summary': ag.get('summary'), 'manifests_when': ag.get('manifests_when'),
-            'origin': 'independent sub-agent given only the property text and a scratch worktree (round %s)' % {'c': '3', 'd': '4', 'e': '5', 'f': '6', 'g': '7'}.get(i.split('_')[-1], '?'),
+            'origin': 'independent sub-agent given only the property text and a scratch worktree (round %s)' % {'c': '3', 'd': '4', 'e': '5', 'f': '6', 'g': '7', 'h': '8'}.get(i.split('_')[-1], '?'),
             'verified_by_me': {'pinned_tests_with_change': '100% tests passed, 0 tests failed out of 819', 'demo_with_change': 'non-zero exit (see meta.agent.json)',
                                'demo_without_change': 'exit 0', 'how': '/tmp/verify_seed.sh <worktree>: rebuild _build + ctest; rebuild archive libs; build + run demo; '
                                'revert the change (git diff > file; git checkout); rebuild; run demo; re-apply'},
